@@ -95,8 +95,12 @@ func init() {
 		}
 		qs := parseInts(a[4])
 		outs := make([]int, len(qs))
+		base := baseTime
+		if len(a) > 5 && a[5] == "zero" { // the queries start at the zero time.Time: a legal timestamp like any other
+			base = time.Time{}
+		}
 		for i, q := range qs {
-			outs[i] = rates.Rate(baseTime.Add(time.Duration(q)))
+			outs[i] = rates.Rate(base.Add(time.Duration(q)))
 		}
 		return fmt.Sprintf("%d %d %s", int64(rates.Duration), int64(rates.IterationDuration), intsTok(outs))
 	})
